@@ -355,6 +355,72 @@ def vramByGPU : (ids : List Nat) → (sizes : List Nat) → (id : Nat) → Nat
   | _ :: _, [], _ => 0
   | i :: is, s :: ss, id => if i == id then s else vramByGPU is ss id
 
+/-! ### `pickBestFullFitByLibrary` / `pickBestPartialFitByLibrary` (server/sched.go)
+
+The estimator's derived inputs depend on the parallelism `p` that is tried (`NumCtx = origNumCtx*p`,
+`GraphSize(ctx, batch, p)`), so the model takes them as a function `commonOf : p ↦ Inp`. -/
+
+/-- one step of `sort.Sort(sort.Reverse(discover.ByFreeMemory(sgl)))`.  For lists of ≤ 12 elements
+    Go's pdqsort is a plain insertion sort (an element moves left while it has strictly more free
+    memory than its left neighbour): stable, descending by free memory. -/
+def insertDesc (x : FGpu) : List FGpu → List FGpu
+  | [] => [x]
+  | y :: ys => if y.gpu.free < x.gpu.free then x :: y :: ys else y :: insertDesc x ys
+
+def sortDesc (l : List FGpu) : List FGpu := l.foldl (fun acc x => insertDesc x acc) []
+
+/-- `numParallelToTry` -/
+def toTry (np : Int) (dp : Nat) : List Nat := if np ≤ 0 then [dp, 1] else [np.toNat]
+
+/-- `for _, g := range sgl { if ok := PredictServerFit([]GpuInfo{g}, …); ok { return [g] } }` -/
+def firstSingle (common : Inp) : List FGpu → Option FGpu
+  | [] => none
+  | g :: rest => if (predictFitAll common [g]).1 then some g else firstSingle common rest
+
+def trySingles (commonOf : Nat → Inp) (sgl : List FGpu) : List Nat → Option (List FGpu × Nat)
+  | [] => none
+  | p :: ps =>
+    match firstSingle (commonOf p) sgl with
+    | some g => some ([g], p)
+    | none => trySingles commonOf sgl ps
+
+/-- "Now try all the GPUs": the SORTED list is checked and the SORTED list is returned -/
+def tryAll (commonOf : Nat → Inp) (sgl : List FGpu) : List Nat → Option (List FGpu × Nat)
+  | [] => none
+  | p :: ps =>
+    if (predictFitAll (commonOf p) sgl).1 then some (sgl, p) else tryAll commonOf sgl ps
+
+def pickFullGroups (commonOf : Nat → Inp) (tries : List Nat) (spread : Bool) :
+    List Group → Option (List FGpu × Nat)
+  | [] => none
+  | g :: rest =>
+    let sgl := sortDesc g.members
+    match (if spread then none else trySingles commonOf sgl tries) with
+    | some r => some r
+    | none =>
+      match tryAll commonOf sgl tries with
+      | some r => some r
+      | none => pickFullGroups commonOf tries spread rest
+
+/-- `pickBestFullFitByLibrary`: `none` = nil; `some (L, p)` = returned list and `*numParallel` -/
+def pickFull (commonOf : Nat → Inp) (np : Int) (dp : Nat) (spread : Bool) (all : List FGpu) :
+    Option (List FGpu × Nat) :=
+  pickFullGroups commonOf (toTry np dp) spread (byLibrary all)
+
+def bestLoop (common : Inp) : (i : Nat) → List Group → (best fit : Nat) → Nat
+  | _, [], _, fit => fit
+  | i, g :: rest, best, fit =>
+    let v := (predictFitAll common g.members).2
+    if v > best then bestLoop common (i + 1) rest v i else bestLoop common (i + 1) rest best fit
+
+/-- `pickBestPartialFitByLibrary` (for the parallelism it settles on) -/
+def pickPartial (common : Inp) (all : List FGpu) : List FGpu :=
+  let groups := byLibrary all
+  if groups.length ≤ 1 then all
+  else match groups[bestLoop common 0 groups 0 0]? with
+    | some g => g.members
+    | none => []
+
 /-! ### scheduler side: `Scheduler.updateFreeSpace` (server/sched.go)
 
 Before the estimator runs for a further model, the scheduler reconciles the free memory the
